@@ -3,6 +3,7 @@
 set -e
 PATCH="$1"; shift
 WT=/tmp/mywt
+[ -d "$WT" ] || git -C /repo worktree add -q --detach "$WT" HEAD      # scratch worktree (outside /repo and /verif), created on first use
 git -C "$WT" checkout -q --detach "$(git -C /repo rev-parse HEAD)" 2>/dev/null
 git -C "$WT" reset -q --hard HEAD
 git -C "$WT" apply "$PATCH"
